@@ -64,6 +64,12 @@ func (l *LookupOptions) String() string {
 
 	b.WriteString("<limit=")
 	b.WriteString(strconv.Itoa(l.MaxElements))
+	if l.Offset != 0 {
+		// Only printed when set, to keep the string (and UUID) of offset free
+		// lookup options stable.
+		b.WriteString(", offset=")
+		b.WriteString(strconv.Itoa(l.Offset))
+	}
 	b.WriteString(", lower_anchor=")
 	if l.LowerAnchor != nil {
 		b.WriteString(l.LowerAnchor.Format(time.RFC3339Nano))
